@@ -468,6 +468,48 @@ func emptiedGroupsAreDropped(r *an.Run, rule string) {
 		// every group that is kept was tested to be non-empty
 		good, napp := true, 0
 		for _, ret := range an.Returns(cf) {
+			// a filter helper with the predicate len(cg.List) > 0
+			if fc, isCall := ret.Results[0].(*ssa.Call); isCall {
+				if _, _, keepIdx, isFilter := asFilterHelper(an.StaticCallee(fc)); isFilter && isCommentGroupList(fc.Type()) {
+					napp++
+					var pred *ssa.Function
+					switch v := fc.Call.Args[keepIdx].(type) {
+					case *ssa.MakeClosure:
+						pred, _ = v.Fn.(*ssa.Function)
+					case *ssa.Function:
+						pred = v
+					}
+					okPred := pred != nil && len(pred.Params) == 1 && len(an.Returns(pred)) > 0
+					if okPred {
+						for _, pr := range an.Returns(pred) {
+							cmp, isCmp := pr.Results[0].(*ssa.BinOp)
+							if !isCmp {
+								okPred = false
+								continue
+							}
+							lc, isLen := cmp.X.(*ssa.Call)
+							k, isc := an.ConstInt(cmp.Y)
+							nonEmptyTest := isLen && an.IsCallTo(lc, "builtin:len") && isc &&
+								(cmp.Op.String() == ">" && k == 0 || cmp.Op.String() == "!=" && k == 0 || cmp.Op.String() == ">=" && k == 1)
+							if nonEmptyTest {
+								ld, isLoad := lc.Call.Args[0].(*ssa.UnOp)
+								if !isLoad {
+									nonEmptyTest = false
+								} else if fa, isFA := ld.X.(*ssa.FieldAddr); !isFA || fieldNameOf(fa) != "List" || fa.X != ssa.Value(pred.Params[0]) {
+									nonEmptyTest = false
+								}
+							}
+							if !nonEmptyTest {
+								okPred = false
+							}
+						}
+					}
+					if !okPred {
+						good = false
+					}
+					continue
+				}
+			}
 			for v := range an.BackSlice(ret.Results[0], an.SliceOpts{}) {
 				app, ok := v.(*ssa.Call)
 				if !ok || !an.IsCallTo(app, "builtin:append") || !isCommentGroupList(app.Type()) {
